@@ -58,7 +58,8 @@ POS_FNS = [kinds.posnode, kinds.PosInit, sigs.g_ab_c_va, sigs.g_a1_b2_va_k_vk]
 LEAVES = [0, 1, -7, 2**70, 2.5, -0.5, 1e300, 'a', 'name with "quotes" and \\ backslash', '', None,
           True, False, (1, 2), (), ('x', (3, 4)), b'bytes\xff', kinds.Color.RED, kinds.Level.HIGH,
           kinds.two, kinds.Base, dup1.Thing, dup2.Thing, 3 + 4j, ..., [1, 2], {'k': 1},
-          float('inf'), float('nan'), complex(1, -2), complex(-1.5, 2), -3j, {1, 2}, set()]
+          float('inf'), float('nan'), complex(1, -2), complex(-1.5, 2), -3j, {1, 2}, set(),
+          kinds.Level.LOW, kinds.Rank.FIRST, kinds.Rank.SECOND, kinds.StrA.NONE, kinds.StrB.NONE]
 FIXTURE_NAMES = ['config_fixture', 'fixture', 'my_experiment']
 
 
@@ -127,6 +128,10 @@ def make_config(rng):
       keys = set(n.kw) | set(range(len(n.pos)))
       n.tags = {k: v for k, v in n.tags.items()
                 if (k in keys or gen.normalize_key(n.fn, k) in keys or k in n.kw)}
+      # several tags on one argument
+      for k in list(n.tags):
+        if n.tags[k] and rng.random() < 0.3:
+          n.tags[k] = set(n.tags[k]) | {rng.choice(vtags.ALL)}
   return root
 
 
@@ -471,18 +476,20 @@ def causal_features(root, genname, opt, kind, scratch, acc):
   umap = dict(zip(order, new_order))
   cur_opt = dict(opt)
   cur_opt['sub_uids'] = [umap[u] for u in opt.get('sub_uids') or [] if u in umap]
-  causal = []
-  for name, key in (('sub-fixtures', 'sub_uids'), ('complexity', 'complexity'), ('history', 'history')):
-    if not cur_opt.get(key) and cur_opt.get(key) != 0:
-      continue
-    trial = dict(cur_opt)
-    trial[key] = None
-    k2, _ = attempt(cur_root, genname, trial, scratch)
-    acc.obs('minimisation_runs')
-    if k2 == kind:
-      cur_opt = trial
-    else:
-      causal.append(name)
+  def drop_options():
+    nonlocal cur_opt
+    for key in ('sub_uids', 'complexity', 'history'):
+      if not cur_opt.get(key) and cur_opt.get(key) != 0:
+        continue
+      trial = dict(cur_opt)
+      trial[key] = None
+      k2, _ = attempt(cur_root, genname, trial, scratch)
+      acc.obs('minimisation_runs')
+      if k2 == kind:
+        cur_opt = trial
+
+  drop_options()
+
   def try_remover(remover):
     nonlocal cur_root, cur_opt
     trial_root, m = dagedit.structural_clone(cur_root)
@@ -522,6 +529,7 @@ def causal_features(root, genname, opt, kind, scratch, acc):
           break
       if not progressed:
         break
+    drop_options()          # an option may only become removable after the config shrank
   return present_features(cur_root, cur_opt), cur_root, cur_opt
 
 
